@@ -50,6 +50,9 @@ type Scenario struct {
 	// LazyClose: closing the stream does not wake the endpoint's pending Read
 	// (pipe:// and user supplied streams behave so)
 	LazyClose bool `json:"lazy_close,omitempty"`
+	// TimeoutErr: the error of the failed connection is a time-out (a net.Error
+	// whose Timeout() is true), reported by every read and write from then on
+	TimeoutErr bool `json:"timeout_err,omitempty"`
 	// IdleSub: the first subscriber does not read until the connection is
 	// lost, so the events sent to it (up to 150: more than its queue holds)
 	// wait in its pipeline meanwhile
@@ -112,6 +115,7 @@ func genCase(t *rapid.T) Case {
 	}
 	sc.CloseErr = rapid.IntRange(0, 4).Draw(t, "closeerr") == 0
 	sc.LazyClose = rapid.IntRange(0, 3).Draw(t, "lazyclose") == 0
+	sc.TimeoutErr = rapid.IntRange(0, 2).Draw(t, "timeouterr") == 0
 	sc.MaxRead = rapid.SampledFrom([]int{0, 5, 13, 28}).Draw(t, "maxread")
 	sc.LocalEnd = rapid.Bool().Draw(t, "localend")
 	return Case{Scenario: sc}
@@ -161,6 +165,7 @@ func run(sc Scenario, fault *hio.Fault, localCloseAt int) runResult {
 	s.MaxRead = sc.MaxRead
 	s.CloseErr = sc.CloseErr
 	s.LazyClose = sc.LazyClose
+	s.FailTimeout = sc.TimeoutErr
 	defer s.Release()
 	resume := make(chan struct{})
 	var resumeOnce sync.Once
